@@ -1,0 +1,63 @@
+//go:build verif
+
+// Contracts for the watermill verification harness (/verif, tool "gowp").
+// Comment-only: with the build tag off this file is not compiled, with it on it adds no code.
+
+package message
+
+//@ global closedchan != nil && closed(closedchan)
+
+//@ type Message
+//@   self m
+//@   monitor ackMutex guards ackSentType, ack(write), noAck(write)
+//@   invariant m.ackSentType == noAckSent || m.ackSentType == ack || m.ackSentType == nack [range]
+//@   invariant m.ackSentType == noAckSent ==> open(m.ack) && open(m.noAck) && (m.ack != nil && m.noAck != nil ==> m.ack != m.noAck) [unsettled]
+//@   invariant m.ackSentType == ack ==> closed(m.ack) && open(m.noAck) [acked]
+//@   invariant m.ackSentType == nack ==> closed(m.noAck) && open(m.ack) [nacked]
+//@   rely old(m.ackSentType) != noAckSent ==> m.ackSentType == old(m.ackSentType) && m.ack == old(m.ack) && m.noAck == old(m.noAck) [settled-stays]
+
+//@ func init
+//@   nopanic
+//@   ensures closedchan != nil && closed(closedchan) [closedchan-closed]
+
+//@ func NewMessage
+//@   nopanic
+//@   ensures result != nil && fresh(result) [fresh]
+//@   ensures result.UUID == uuid && result.Payload == payload [fields]
+//@   ensures result.Metadata != nil && fresh(result.Metadata) && len(result.Metadata) == 0 [empty-metadata]
+//@   ensures result.ackSentType == noAckSent [unsettled]
+//@   ensures fresh(result.ack) && fresh(result.noAck) && result.ack != result.noAck && !closed(result.ack) && !closed(result.noAck) [own-open-channels]
+//@   ensures result.ctx == nil [no-context]
+//@   modifies nothing
+
+//@ func (*Message).Ack
+//@   requires m != nil
+//@   ghost atomic
+//@   nopanic
+//@   ensures old(m.ackSentType) == nack ==> result == false && m.ackSentType == nack [nack-wins]
+//@   ensures old(m.ackSentType) != nack ==> result == true && m.ackSentType == ack [first-ack-or-repeat]
+//@   ensures m.ackSentType == ack ==> closed(m.ack) && open(m.noAck) [exactly-ack-channel-closed]
+//@   ensures m.ackSentType == nack ==> closed(m.noAck) && open(m.ack) [exactly-nack-channel-closed]
+//@   ensures old(m.ackSentType) != noAckSent ==> m.ack == old(m.ack) && m.noAck == old(m.noAck) && m.ackSentType == old(m.ackSentType) [repeat-changes-nothing]
+
+//@ func (*Message).Nack
+//@   requires m != nil
+//@   ghost atomic
+//@   nopanic
+//@   ensures old(m.ackSentType) == ack ==> result == false && m.ackSentType == ack [ack-wins]
+//@   ensures old(m.ackSentType) != ack ==> result == true && m.ackSentType == nack [first-nack-or-repeat]
+//@   ensures m.ackSentType == ack ==> closed(m.ack) && open(m.noAck) [exactly-ack-channel-closed]
+//@   ensures m.ackSentType == nack ==> closed(m.noAck) && open(m.ack) [exactly-nack-channel-closed]
+//@   ensures old(m.ackSentType) != noAckSent ==> m.ack == old(m.ack) && m.noAck == old(m.noAck) && m.ackSentType == old(m.ackSentType) [repeat-changes-nothing]
+
+//@ func (*Message).Acked
+//@   requires m != nil
+//@   nopanic
+//@   pure
+//@   ensures result == m.ack [is-ack-channel]
+
+//@ func (*Message).Nacked
+//@   requires m != nil
+//@   nopanic
+//@   pure
+//@   ensures result == m.noAck [is-nack-channel]
